@@ -23,6 +23,9 @@ struct Job {
     strat: Strat,
     /// lanes with an odd C-order index hold only zeros (whole blocks of all-zero lanes)
     zero_odd_lanes: bool,
+    /// the data does not depend on the last trailing index: the blocks along the last axis are
+    /// bit-identical copies of each other (replicated channels)
+    dup_last: bool,
 }
 impl Job {
     fn key(&self) -> String {
@@ -31,7 +34,7 @@ impl Job {
             self.ax.name,
             self.trailing,
             if self.dynamic { "dyn" } else { "" },
-            if self.zero_odd_lanes { "/odd-lanes-zero" } else { "" },
+            if self.zero_odd_lanes { "/odd-lanes-zero" } else if self.dup_last { "/replicated-along-last-axis" } else { "" },
             match &self.strat {
                 Strat::Linear => "Linear".to_string(),
                 Strat::Bilinear => "Bilinear".to_string(),
@@ -180,7 +183,9 @@ fn run(job: &Job, out: &mut JobOut) {
     };
     let periodic = matches!(&job.strat, Strat::Spline(s) if s.is_periodic());
     // lanes: data of lane j (for 2-D: a (n x 3) table per lane)
+    let last_len = job.trailing.last().copied().unwrap_or(1).max(1);
     let lane_tab = |j: usize, variant: usize| -> Vec<f64> {
+        let j = if job.dup_last && variant == 0 { j / last_len } else { j };
         if job.zero_odd_lanes && j % 2 == 1 && variant == 0 {
             return vec![0.0; n * if two_d { 3 } else { 1 }];
         }
@@ -283,7 +288,7 @@ fn run(job: &Job, out: &mut JobOut) {
             Strat::Spline(s) => Strat::Spline(lane_spec(s, j)),
             o => o.clone(),
         };
-        let alone_job = Job { ax: job.ax.clone(), trailing: vec![], dynamic: false, strat: alone_strat.clone(), zero_odd_lanes: false };
+        let alone_job = Job { ax: job.ax.clone(), trailing: vec![], dynamic: false, strat: alone_strat.clone(), zero_odd_lanes: false, dup_last: false };
         let mut shape = vec![n];
         if two_d {
             shape.push(3);
@@ -439,9 +444,32 @@ fn body(ctx: &Ctx) -> (Summary, Meta) {
                     // whole blocks of all-zero lanes with derivative boundary values (a spline through
                     // zeros is not zero when S' or S'' is prescribed)
                     if l >= 2 && matches!(&s, Strat::Spline(BcSpec::Lanes(_)) | Strat::Spline(BcSpec::Rows(_))) {
-                        jobs.push(Job { ax: ax.clone(), trailing: tr.clone(), dynamic, strat: s.clone(), zero_odd_lanes: true });
+                        jobs.push(Job { ax: ax.clone(), trailing: tr.clone(), dynamic, strat: s.clone(), zero_odd_lanes: true, dup_last: false });
                     }
-                    jobs.push(Job { ax: ax.clone(), trailing: tr.clone(), dynamic, strat: s, zero_odd_lanes: false });
+                    jobs.push(Job { ax: ax.clone(), trailing: tr.clone(), dynamic, strat: s, zero_odd_lanes: false, dup_last: false });
+                }
+            }
+        }
+    }
+    // replicated channels: blocks along the last trailing axis are bit-identical, the boundary
+    // conditions are the same for all lanes but one (at every position), or any of 3 per lane
+    for ax in axes.iter().take(2) {
+        for tr in [vec![2], vec![2, 2], vec![3, 2], vec![2, 3], vec![2, 2, 2], vec![2, 1, 2]] {
+            let l: usize = tr.iter().product();
+            for dynamic in [false, true] {
+                let mut assigns: Vec<Vec<RowSpec>> = vec![];
+                for p in 0..l {
+                    for (a, b) in [(rows[0], rows[3]), (rows[3], rows[4]), (rows[1], rows[5])] {
+                        assigns.push((0..l).map(|j| if j == p { b } else { a }).collect());
+                    }
+                }
+                if l == 4 {
+                    for code in 0..81usize {
+                        assigns.push((0..4).map(|j| [rows[0], rows[3], rows[4]][code / 3usize.pow(j as u32) % 3]).collect());
+                    }
+                }
+                for a in assigns {
+                    jobs.push(Job { ax: ax.clone(), trailing: tr.clone(), dynamic, strat: Strat::Spline(BcSpec::Rows(a)), zero_odd_lanes: false, dup_last: true });
                 }
             }
         }
@@ -455,7 +483,7 @@ fn body(ctx: &Ctx) -> (Summary, Meta) {
         let ax = alpha::axis_from_word("long", 0.0, &w);
         for tr in [vec![2], vec![3], vec![8], vec![2, 2]] {
             for s in [Strat::Linear, Strat::Spline(BcSpec::TopNotAKnot), Strat::Spline(BcSpec::TopNatural), Strat::Spline(BcSpec::Periodic), Strat::Spline(BcSpec::RowAll(End::Clamped))] {
-                jobs.push(Job { ax: ax.clone(), trailing: tr.clone(), dynamic: false, strat: s, zero_odd_lanes: false });
+                jobs.push(Job { ax: ax.clone(), trailing: tr.clone(), dynamic: false, strat: s, zero_odd_lanes: false, dup_last: false });
             }
         }
     }
@@ -467,7 +495,7 @@ fn body(ctx: &Ctx) -> (Summary, Meta) {
     });
     let _ = (Array1::<f64>::zeros(1), Axis(0));
     let meta = Meta {
-        rule: "for every (axis, trailing shape incl. length-0/1 and non-square ones, static Ix1..Ix6 or dynamic rank, strategy / boundary configuration incl. a different condition per lane, all 216 assignments of 6 row conditions to 3 lanes, and 4 different conditions on a square (2,2) trailing shape): (a) every lane of the n-d result is compared with the interpolator built from that lane (and its own boundary condition) alone; (b) for every lane i, rebuilding with lane i set to NaN / +inf / other values x 2^20 / another boundary condition leaves every other lane bit-identical. Every comparison is non-trivial.".into(),
+        rule: "for every (axis, trailing shape incl. length-0/1 and non-square ones, static Ix1..Ix6 or dynamic rank, strategy / boundary configuration incl. a different condition per lane, all 216 assignments of 6 row conditions to 3 lanes, and 4 different conditions on a square (2,2) trailing shape; data replicated along the last trailing axis with one lane's condition differing at every position / all 81 assignments of 3 conditions to 4 lanes): (a) every lane of the n-d result is compared with the interpolator built from that lane (and its own boundary condition) alone; (b) for every lane i, rebuilding with lane i set to NaN / +inf / other values x 2^20 / another boundary condition leaves every other lane bit-identical. Every comparison is non-trivial.".into(),
         bounds: format!("{njobs} (axis, trailing shape, rank kind, configuration) jobs; tier {}", ctx.tier.name()),
         assumptions: vec!["(a) is required within rounding (K eps scale); bit-identity is reported as an observed outcome".into()],
         extra: vec![],
